@@ -239,6 +239,48 @@ def check_order(world, pipe, res, consumers=None):
     return out
 
 
+def check_ids(world, pipe, res, consumers=None):
+    """C02, judged on the message ids themselves: within one incarnation of a consumer the sets it is handed from one
+    synchronized (non-balanced) source were published under strictly increasing message ids - also when the publisher was
+    restarted and re-issues ids.  The id of a delivered frame is looked up in the transport log by its provenance token;
+    frames whose token was published more than once by that source are left out."""
+    out = []
+    pubidx = PubIndex(world)
+    last = {}
+    for ev in world.clog:
+        if ev['ev'] != 'process' or not ev['ins']:
+            continue
+        cons = ev['node']
+        if consumers is not None and cons not in consumers:
+            continue
+        edges = [e for e in pipe.inputs_of(cons) if not e['eph']]
+        if not edges or pipe.nodes[cons]['config'].get('sources_balance'):
+            continue
+        per_pub = {}
+        for dst, tok in ev['ins'].items():
+            if 'o' not in tok:
+                continue
+            c = edge_for_topic(edges, dst, pubidx, tok)
+            if len(c) != 1:
+                continue
+            e, st = c[0]
+            pubs = pubidx.by_node_tok.get((e['pub'], st, tokkey(tok)), [])
+            mids = {mid for inc, mid, sock in pubs}
+            if len(mids) == 1:
+                per_pub.setdefault(e['pub'], set()).update(mids)
+        for pub, mids in per_pub.items():
+            if len(mids) != 1:
+                continue           # mixed ids inside one set are C01's business
+            mid = next(iter(mids))
+            key = (cons, ev['inc'], pub)
+            res.count('delivered_ids_checked')
+            if key in last and mid <= last[key]:
+                out.append(('message-id-repeated' if mid == last[key] else 'message-id-went-back',
+                            f'{cons} (incarnation {ev["inc"]}) was handed a set of {pub} published under message id {mid} after one published under id {last[key]}'))
+            last[key] = max(mid, last.get(key, mid))
+    return out
+
+
 def is_from_ephemeral(pipe, cons, dst, tok):
     edges = pipe.inputs_of(cons)
     if not any(e['eph'] for e in edges):
